@@ -548,11 +548,44 @@ unsafe fn scenario_lifecycle(seed: u64, max_payload: usize, out: &mut Outcome) {
 
     // log line
     if !request.is_null() {
-        let log_headers = build_header_map(&[(b"Location".to_vec(), b"/bar".to_vec()), (b"Content-Type".to_vec(), b"text/html".to_vec())]);
+        // response headers as a proxy hands them over: repeated Location / Content-Type lines with different values, an
+        // empty value
+        let log_list: Vec<(Vec<u8>, Vec<u8>)> = match rng.below(3) {
+            0 => vec![(b"Location".to_vec(), b"/bar".to_vec()), (b"Content-Type".to_vec(), b"text/html".to_vec())],
+            1 => vec![
+                (b"Location".to_vec(), b"/set-by-the-backend".to_vec()),
+                (b"Content-Type".to_vec(), b"text/plain".to_vec()),
+                (b"X-Empty".to_vec(), Vec::new()),
+                (b"location".to_vec(), b"/set-by-the-redirection".to_vec()),
+                (b"content-type".to_vec(), b"text/html; charset=utf-8".to_vec()),
+            ],
+            _ => header_list(&mut rng),
+        };
+        let log_headers = build_header_map(&log_list);
         let proxy = cstr("driver/1.0");
         let ip = cstr("192.168.0.1");
         let log = take_string(redirectionio_api_create_log_in_json(request, 301, log_headers, action, proxy.as_ptr(), 1_700_000_000_000, ip.as_ptr()));
         out.check(log.as_deref().map(|l| l.contains("\"code\":301")).unwrap_or(false), || "log line missing or malformed".to_string());
+        // value oracle: the same log built natively from the same request, headers and action (the elapsed time is
+        // the only field that depends on the clock)
+        fn without_duration(v: &mut serde_json::Value) {
+            match v {
+                serde_json::Value::Object(m) => {
+                    m.remove("duration");
+                    for x in m.values_mut() {
+                        without_duration(x);
+                    }
+                }
+                serde_json::Value::Array(a) => a.iter_mut().for_each(without_duration),
+                _ => {}
+            }
+        }
+        let native_log = redirectionio::api::Log::from_proxy(&*request, 301, &native_headers(&log_list), Some(&native_a), "driver/1.0", 1_700_000_000_000u128, "192.168.0.1");
+        let mut want = serde_json::to_value(&native_log).unwrap_or(serde_json::Value::Null);
+        let mut got = log.as_deref().and_then(|l| serde_json::from_str::<serde_json::Value>(l).ok()).unwrap_or(serde_json::Value::Null);
+        without_duration(&mut want);
+        without_duration(&mut got);
+        out.check(got == want, || format!("create_log_in_json differs from the native log for response headers {:?}: {got} vs {want}", log_list.iter().map(|(n, v)| (String::from_utf8_lossy(n).to_string(), String::from_utf8_lossy(v).to_string())).collect::<Vec<_>>()));
         let _ = take_header_map(log_headers);
     }
     let v = take_string(redirectionio_api_get_rule_api_version());
